@@ -111,6 +111,11 @@ def make_record(spec):
             return np.zeros(N)
         if rec == "randwalk":
             return np.cumsum(g.normal(size=N))
+        if rec == "line+floor":      # > 150 dB of dynamic range between the line and the floor
+            f = g.uniform(0.05, 0.45)
+            return np.sin(2 * np.pi * f * t + g.uniform(0, 6)) + 1e-8 * g.normal(size=N)
+        if rec == "steepred":        # PSD ~ 1/f^4: doubly integrated noise
+            return np.cumsum(np.cumsum(g.normal(size=N)))
         raise ValueError(rec)
 
     x = one(0)
